@@ -30,7 +30,15 @@ static int n_save; static char engine[SZ_Dispatch_Engine] __attribute__((aligned
 static struct { char bytes[SZ_Conversion_Saves] __attribute__((aligned(8))); } saves_obj;
 #define saves (saves_obj.bytes)
 #define SAVES_ENABLED (*(uint8_t*)(saves + OFF_CS_enabled))
-void SAVE_PARAMS_VEC(char* self, char* vec) { n_save++; }
+#ifndef NSV
+#define NSV 1
+#endif
+/* conversion temporaries waiting in this thread's Conversion_Saves: objects created by user type conversions while the last call was dispatched */
+static struct BV* saved_tmp; static char tmp_obj[3][8]; static struct { char* vptr; uint32_t use, weak; } tmp_cb[3];
+#define SAVES_VEC ((struct vec3*)(saves + OFF_CS_saves))
+static uint64_t taken_n; static char* taken_p[3]; static int taken_alive = 1;
+void SAVE_PARAMS_VEC(char* self, char* vec) { n_save++; struct vec3* v = (struct vec3*)vec; taken_n = v->b == v->e ? 0 : (uint64_t)((struct BV*)v->e - (struct BV*)v->b);
+  for (unsigned i = 0; i < 3; i++) if (i < taken_n) { taken_p[i] = ((struct BV*)v->b)[i].p; if (((struct BV*)v->b)[i].pn != (char*)&tmp_cb[i] || tmp_cb[i].use != 1) taken_alive = 0; } }
 void F_NEW_SCOPE(char* h); void F_POP_SCOPE(char* h); void F_NEW_STACK(char* h); void F_POP_STACK(char* h); void F_NEW_CALL(char* self, char* h, char* s); void F_POP_CALL(char* self, char* h, char* s);
 int main(void) {
   static struct holder H; unsigned spare = SPARE;
@@ -41,6 +49,10 @@ int main(void) {
   uint8_t en0 = nondet_u8() & 1; SAVES_ENABLED = en0;
   int32_t d0 = nondet_i32(); __CPROVER_assume(d0 >= 0 && d0 < 1000000); H.call_depth = d0;
   struct vec3* last0 = &st[NS - 1];
+  saved_tmp = (struct BV*)malloc(3 * sizeof(struct BV)); __CPROVER_assume(saved_tmp != 0);      /* heap storage: the vector that takes the temporaries over releases it */
+  for (unsigned i = 0; i < 3; i++) { saved_tmp[i].p = tmp_obj[i]; saved_tmp[i].pn = (char*)&tmp_cb[i]; tmp_cb[i].use = 1; tmp_cb[i].weak = 1; }
+  SAVES_VEC->b = (char*)&saved_tmp[0]; SAVES_VEC->e = (char*)&saved_tmp[NSV]; SAVES_VEC->c = (char*)&saved_tmp[NSV];
+  if (NSV == 0) { SAVES_VEC->b = SAVES_VEC->e = SAVES_VEC->c = 0; }
 #if OP == O_NEW_SCOPE || OP == O_SCOPE_PAIR
   F_NEW_SCOPE((char*)&H);
   __CPROVER_assert(!__exc_pending && vlen(&H.stacks) == NS && slen(vat(&H.stacks, NS - 1)) == S + 1 && vlen(&H.call_params) == C + 1, "C09: a new scope adds exactly one scope to the current stack and one saved-parameter list");
@@ -70,6 +82,7 @@ int main(void) {
   __CPROVER_assert(!__exc_pending && H.call_depth == d0 + 1, "C09: entering a call raises the call depth by one");
   __CPROVER_assert(d0 == 0 ? SAVES_ENABLED == 1 : SAVES_ENABLED == en0, "C09: conversion saving is switched on exactly when the outermost call is entered");
   __CPROVER_assert(vlen(&H.stacks) == NS && vlen(&H.call_params) == C, "C09: entering a call does not change the scope shape");
+  __CPROVER_assert(n_save == 1 && taken_n == NSV && taken_alive && (NSV < 1 || taken_p[0] == tmp_obj[0]) && (NSV < 2 || taken_p[1] == tmp_obj[1]) && SAVES_VEC->b == SAVES_VEC->e, "C11: the conversion temporaries that were waiting are handed to the new call's saved parameters - all of them, alive - and the waiting list is empty");
   if (d0 == 0) __CPROVER_assert(0, "witness: outermost"); else __CPROVER_assert(0, "witness: nested");
 #elif OP == O_POP_CALL
   __CPROVER_assume(d0 >= 1);
@@ -77,6 +90,8 @@ int main(void) {
   __CPROVER_assert(!__exc_pending && H.call_depth == d0 - 1, "C09: leaving a call lowers the call depth by one");
   __CPROVER_assert(d0 == 1 ? (SAVES_ENABLED == 0 && vlen(vat(&H.call_params, C - 1)) == 0) : SAVES_ENABLED == en0, "C09: when the outermost call is left conversion saving is switched off and its saved parameters are released");
   __CPROVER_assert(vlen(&H.stacks) == NS && vlen(&H.call_params) == C, "C09: leaving a call does not change the scope shape");
+  __CPROVER_assert(SAVES_VEC->b == (NSV ? (char*)&saved_tmp[0] : (char*)0) && SAVES_VEC->e == (NSV ? (char*)&saved_tmp[NSV] : (char*)0), "C11: leaving a call - also the outermost one - does not release the conversion temporaries made while it was dispatched: the value it returns may refer into them (they are handed to the next call)");
+  for (unsigned i = 0; i < 3; i++) if (i < NSV) __CPROVER_assert(saved_tmp[i].p == tmp_obj[i] && saved_tmp[i].pn == (char*)&tmp_cb[i] && tmp_cb[i].use == 1, "C11: waiting conversion temporaries stay alive across the end of a call");
   if (d0 == 1) __CPROVER_assert(0, "witness: outermost"); else __CPROVER_assert(0, "witness: nested");
 #else
 #error "unknown OP"
